@@ -19,7 +19,8 @@
 (* Construct  builds the adapter: Decide mirrors the order of the tests in *)
 (*            the code; the result is rejection (LenaTypeError) or the way *)
 (*            the adapter's method is bound.                               *)
-(* Invoke     calls the adapter's interface on a fixed probe; the expected *)
+(* Invoke     calls the adapter's interface on a fixed probe (twice on the *)
+(*            same adapter object); the expected                           *)
 (*            calls of the element's methods (log), what reaches a sink    *)
 (*            (FillInto) and what is returned are state.                   *)
 (* The declarative side (Usable + Precedence) is written from the          *)
@@ -27,25 +28,27 @@
 (***************************************************************************)
 EXTENDS AdapterTable, Json
 
-CONSTANTS MethodStates      \* {"no", "meth"} or {"no", "meth", "attr"}
+CONSTANTS Tri      \* the method names that may also be "attr": present as a data attribute, not callable
 
-Caps == [run : MethodStates, fill : MethodStates, compute : MethodStates, request : MethodStates,
-         fill_into : MethodStates, m : MethodStates, call : BOOLEAN, iter : BOOLEAN, cbf : BOOLEAN]
+StatesOf(x) == IF x \in Tri THEN {"no", "meth", "attr"} ELSE {"no", "meth"}
+Caps == [run : StatesOf("run"), fill : StatesOf("fill"), compute : StatesOf("compute"), request : StatesOf("request"),
+         fill_into : StatesOf("fill_into"), m : StatesOf("m"), call : BOOLEAN, iter : BOOLEAN, cbf : BOOLEAN]
 
-VARIABLES adapter, caps, arg, phase, res, log, sink, ret
-vars == <<adapter, caps, arg, phase, res, log, sink, ret>>
+VARIABLES adapter, caps, arg, phase, res, log, sink, ret, uses
+vars == <<adapter, caps, arg, phase, res, log, sink, ret, uses>>
 
 (***************************************************************************)
 (* Machine.                                                                *)
 (***************************************************************************)
 Init == /\ adapter \in Adapters /\ caps \in Caps /\ arg \in ArgsOf(adapter)
-        /\ phase = "new" /\ res = Reject /\ log = <<>> /\ sink = <<>> /\ ret = <<>>
+        /\ phase = "new" /\ res = Reject /\ log = <<>> /\ sink = <<>> /\ ret = <<>> /\ uses = 0
 Construct == /\ phase = "new" /\ res' = Decide(adapter, caps, arg)
              /\ phase' = (IF res'.ok THEN "built" ELSE "rejected")
-             /\ UNCHANGED <<adapter, caps, arg, log, sink, ret>>
-Invoke == /\ phase = "built"
-          /\ LET e == Effect(adapter, res) IN log' = e.log /\ sink' = e.sink /\ ret' = e.ret
-          /\ phase' = "done"
+             /\ UNCHANGED <<adapter, caps, arg, log, sink, ret, uses>>
+\* the same adapter object is used twice: every use calls the bound method(s) again
+Invoke == /\ phase = "built" /\ uses < 2
+          /\ LET e == Effect(adapter, res) IN log' = log \o e.log /\ sink' = sink \o e.sink /\ ret' = e.ret
+          /\ uses' = uses + 1 /\ phase' = (IF uses' = 2 THEN "done" ELSE "built")
           /\ UNCHANGED <<adapter, caps, arg, res>>
 Next == Construct \/ Invoke
 Spec == Init /\ [][Next]_vars
@@ -81,6 +84,10 @@ CbfOnlyFillInto == (Decided /\ adapter # "FillInto") => res = Decide(adapter, [c
 Gain(c) == {[c EXCEPT ![x] = "meth"] : x \in {"run", "fill", "compute", "request", "fill_into", "m"}}
               \cup {[c EXCEPT !.call = TRUE], [c EXCEPT !.iter = TRUE], [c EXCEPT !.cbf = TRUE]}
 Monotone == (Decided /\ res.ok) => \A c2 \in Gain(caps) : Decide(adapter, c2, arg).ok
+\* using the adapter does not change what it is bound to; the second use has the effect of the first
+BindingStable == [][phase # "new" => res' = res]_vars
+RepeatedUse == phase = "done" => LET e == Effect(adapter, res) IN
+                  log = e.log \o e.log /\ sink = e.sink \o e.sink /\ ret = e.ret
 \* the probe calls only methods the element has
 LogWithinCaps == phase = "done" => \A i \in 1..Len(log) :
    \/ log[i].n \in {"call", "iter", "function"} /\ (log[i].n = "call" => caps.call) /\ (log[i].n = "iter" => caps.iter)
